@@ -137,7 +137,7 @@ pub fn run(ctx: &Ctx, rep: &mut Report) {
             }
             rep.count("compilations_compared");
         }
-        if rep.samples.len() < 4 && count_res(&e) >= 5 {
+        if rep.samples.is_empty() || (rep.samples.len() < 4 && count_res(&e) >= 5) {
             rep.sample(J::obj(vec![("expression", J::s(render_default(&e).unwrap_or_default().chars().take(300).collect::<String>())), ("compilations", J::Int(reps as i128)), ("verdict", J::s("byte-identical programs and equal tables"))]));
         }
     });
